@@ -10,6 +10,9 @@ CLAIMED = {
  "C08": dict(tech=TECH + "RADIUS-side record stream + acknowledgement ledger: Stop ordering, exactly-once after ack (crash-free histories), eventual Stop or durable queue after a fault-free tail, identifier and 64-bit counter exactness",
    text="Seeded exploration of start/stop/counter/outage histories of the real AccountingManager and radius.Client (every goroutine a scheduler task) over a simulated disk and RADIUS server, with a process crash injected at tape-chosen disk and network steps (including inside WriteFile), graceful stops and restarts from the surviving directory. Sampling, not proof.",
    note="Process-crash disk model (no power loss); request/reply loss stays inside the configured retry budget by construction; layeh's UDP retransmit loop is replaced by the simulated transport. Genuine defects that are not repaired are listed in known_findings.json by fingerprint.", ref="§5 C08"),
+ "C02": dict(tech=TECH + "binding ledger built only from the replies the servers wrote (double binding, bad address, renewal stability, declined-not-reoffered, availability after release/expiry)",
+   text="Seeded exploration of DHCPv4 and DHCPv6 message histories from 2-5 clients against the real packet/message handlers (one handler task per message, bursts interleaved by the seeded scheduler), the real pools and the real lease-cleanup loop on a virtual clock that jumps across T1, expiry and the cleanup tick. Sampling, not proof.",
+   note="Clients are a MAC (or MAC + own circuit-id when relayed) resp. a DUID; replies are captured at the packet connection (v4: handler parameter; v6: the server's WriteToUDP call is redirected). Genuine defects not repaired are in known_findings.json.", ref="§5 C02"),
 }
 NA = {
  "C06": "static relation between Go and C declarations (sizes, offsets, byte order, key derivation for all inputs): no schedule, clock, fault or history can change it, so it is not a simulation target",
